@@ -76,6 +76,8 @@ func main() {
 		fmt.Print(genHandlers(root))
 	case "RunSkeleton":
 		fmt.Print(genRunSkeleton(root))
+	case "Stacking", "StackingTable":
+		fmt.Print(genStacking(root))
 	default:
 		die("unknown generator %q", gen)
 	}
